@@ -1,4 +1,4 @@
-// Injected as `#[cfg(kani)] mod verif_kani_edit;` (child of crate::functions) into a scratch copy of /repo.
+// Injected as `#[cfg(kani)] mod verif_kani_edit;` (child of crate::builder) into a scratch copy of /repo.
 // Bounded twins (level "bounded") of the Verus units edit / sets / contains: the PUBLIC editing, set and containment
 // functions are run on flat documents of CONCRETE shape (every payload width a constant) with symbolic contents, built by
 // the README layout spec (crate::verif_kani_spec), and their output is compared byte for byte with the layout of the
@@ -7,6 +7,8 @@
 #![allow(unused_imports, dead_code)]
 use super::*;
 use crate::verif_kani_spec::*;
+use crate::functions::*;
+use crate::{Error, Value};
 
 /// every harness stubs the JSON text parser: a binary document must never reach the text branch
 pub(crate) fn no_text_e(_buf: &[u8]) -> Result<Value<'_>, Error> {
@@ -175,109 +177,59 @@ fn kb_array_insert_into_nonarray() {
     check_array_insert(&[elem], &doc, nv, &layout_scalar(&nv));
 }
 
+
+/// write_entry restricted to flat builders: identical Raw arm, the nested-builder arms must be unreachable
+pub(crate) fn write_entry_flat(buf: &mut Vec<u8>, entry: Entry<'_>) -> JEntry {
+    match entry {
+        Entry::Raw(jentry, data) => {
+            buf.extend_from_slice(data);
+            jentry
+        }
+        _ => panic!("nested builder entry in a flat harness"),
+    }
+}
+
 // ---- experiments
 #[kani::proof]
 #[kani::unwind(40)]
 #[kani::stub(crate::parser::parse_value, no_text_e)]
-fn kx_del_concrete() {
-    let a = [sc_w2().it, sc_float9().it, sc_str1().it, sc_w0().it];
-    let doc = layout_array(&a);
-    let mut buf = out_buf();
-    let r = delete_by_index(doc.as_slice(), 1, &mut buf);
-    assert!(r.is_ok());
-    assert!(appended(&buf, &layout_array(&[a[0], a[2], a[3]])));
+#[kani::stub(crate::builder::write_entry, write_entry_flat)]
+fn kx_s1() {
+    check_delete_by_index(&[sc_num2().it, sc_float9().it, sc_str1().it, sc_null().it]);
 }
-
 #[kani::proof]
 #[kani::unwind(40)]
 #[kani::stub(crate::parser::parse_value, no_text_e)]
-fn kx_del_split() {
-    let a = [sc_w2().it, sc_float9().it, sc_str1().it, sc_w0().it];
+#[kani::stub(crate::builder::write_entry, write_entry_flat)]
+fn kx_s2() {
+    check_delete_by_index(&[sc_w2().it, sc_float9().it, sc_str1().it, sc_w0().it]);
+}
+#[kani::proof]
+#[kani::unwind(40)]
+#[kani::stub(crate::parser::parse_value, no_text_e)]
+fn kx_s3() {
+    let a = [sc_num2().it, sc_float9().it, sc_str1().it, sc_null().it];
     let doc = layout_array(&a);
     let index: i32 = kani::any();
-    kani::assume(index >= -6 && index <= 6);
-    let mut buf = out_buf();
-    let r = delete_by_index(doc.as_slice(), index, &mut buf);
-    assert!(r.is_ok());
-    let eff = if index < 0 { 4 + index } else { index };
-    if eff == 0 { assert!(appended(&buf, &layout_array(&[a[1], a[2], a[3]]))); }
-    else if eff == 1 { assert!(appended(&buf, &layout_array(&[a[0], a[2], a[3]]))); }
-    else if eff == 2 { assert!(appended(&buf, &layout_array(&[a[0], a[1], a[3]]))); }
-    else if eff == 3 { assert!(appended(&buf, &layout_array(&[a[0], a[1], a[2]]))); }
-    else { assert!(appended(&buf, &doc)); }
+    let mut k = -6;
+    while k <= 6 {
+        if index == k {
+            let mut buf = out_buf();
+            let r = delete_by_index(doc.as_slice(), k, &mut buf);
+            assert!(r.is_ok());
+            let eff = if k < 0 { 4 + k } else { k };
+            let mut want = L::new();
+            let mut i = 0;
+            while i < 4 { if i as i32 != eff { want.push(a[i]); } i += 1; }
+            assert!(appended(&buf, &layout_array(want.items())));
+        }
+        k += 1;
+    }
 }
-
 #[kani::proof]
-#[kani::unwind(40)]
+#[kani::unwind(24)]
 #[kani::stub(crate::parser::parse_value, no_text_e)]
-fn kx_del_concrete_small() {
-    let a = [sc_w2().it, sc_w0().it];
-    let doc = layout_array(&a);
-    let mut buf = out_buf();
-    let r = delete_by_index(doc.as_slice(), 1, &mut buf);
-    assert!(r.is_ok());
-    assert!(appended(&buf, &layout_array(&[a[0]])));
-}
-
-#[kani::proof]
-#[kani::unwind(8)]
-fn kx_builder_direct() {
-    let p: [u8; 2] = kani::any();
-    let mut b = ArrayBuilder::new(2);
-    b.push_raw(JEntry::make_number_jentry(2), &p);
-    b.push_raw(JEntry::make_null_jentry(), &[]);
-    let mut buf = out_buf();
-    b.build_into(&mut buf);
-    assert!(buf.len() == 2 + 14);
-    assert!(buf[2] == 0x80 && buf[5] == 2 && buf[14] == p[0]);
-}
-
-#[kani::proof]
-#[kani::unwind(18)]
-#[kani::stub(crate::parser::parse_value, no_text_e)]
-fn kx_del_concrete_small18() {
-    let a = [sc_w2().it, sc_w0().it];
-    let doc = layout_array(&a);
-    let mut buf = out_buf();
-    let r = delete_by_index(doc.as_slice(), 1, &mut buf);
-    assert!(r.is_ok());
-    assert!(appended(&buf, &layout_array(&[a[0]])));
-}
-
-// T2: literal document, symbolic payload bytes only
-#[kani::proof]
-#[kani::unwind(18)]
-#[kani::stub(crate::parser::parse_value, no_text_e)]
-fn kx_t2_literal() {
-    let x: u8 = kani::any();
-    let doc: [u8; 14] = [0x80, 0, 0, 2, 0x20, 0, 0, 2, 0, 0, 0, 0, 0x40, x];
-    let mut buf = out_buf();
-    let r = delete_by_index(&doc, 1, &mut buf);
-    assert!(r.is_ok());
-    assert!(buf.len() == 2 + 10 && buf[2] == 0x80 && buf[5] == 1 && buf[11] == x);
-}
-
-// T3: Buf document but concrete entry words
-#[kani::proof]
-#[kani::unwind(18)]
-#[kani::stub(crate::parser::parse_value, no_text_e)]
-fn kx_t3_concrete_words() {
-    let a = [sc_num2().it, sc_null().it];
-    let doc = layout_array(&a);
-    let mut buf = out_buf();
-    let r = delete_by_index(doc.as_slice(), 1, &mut buf);
-    assert!(r.is_ok());
-    assert!(appended(&buf, &layout_array(&[a[0]])));
-}
-
-// T4: internal function directly (no is_jsonb dispatch)
-#[kani::proof]
-#[kani::unwind(18)]
-fn kx_t4_internal() {
-    let a = [sc_num2().it, sc_null().it];
-    let doc = layout_array(&a);
-    let mut buf = out_buf();
-    let r = delete_jsonb_by_index(doc.as_slice(), 1, &mut buf);
-    assert!(r.is_ok());
-    assert!(appended(&buf, &layout_array(&[a[0]])));
+#[kani::stub(crate::builder::write_entry, write_entry_flat)]
+fn kx_s4() {
+    check_delete_by_index(&[sc_num2().it, sc_null().it]);
 }
